@@ -32,6 +32,12 @@ type c07Pair struct {
 	// EditsL: after the first round of Diff calls L is edited in place (domhist.go) and everything is checked again on
 	// the content it holds then ("for all pairs of documents" includes documents that were diffed and edited before).
 	EditsL []dhEdit `json:"editsL,omitempty"`
+	// SealL / SealR: positions of composites (lists, containers) that are attached as their SEALED, read-only views
+	// (ListBuilder.Seal() / ContainerBuilder.Seal()) when the document is built; SealRoots: the two roots are handed to
+	// Diff as their sealed views as well.  A document holding immutable nodes is a document like any other.
+	SealL     [][]any `json:"sealL,omitempty"`
+	SealR     [][]any `json:"sealR,omitempty"`
+	SealRoots bool    `json:"sealRoots,omitempty"`
 }
 
 // c07Layers: L and R are wire containers whose children are the layer documents.
@@ -42,7 +48,7 @@ type c07Layers struct {
 
 func init() {
 	register(&Prop{ID: "C07", Run: c07Run,
-		Rule: "pairs of root containers over path-safe keys (two key pools, one with keys such as a / a-b / aB / a_ whose paths interleave with a. and a[ in byte order): R is L after 0-4 random local edits (key added/removed, leaf changed, kind changed, list edited), or an independent document, or a copy, or a copy differing in exactly one scalar by a confusable pair (same number under another Go type, neighbouring integers beyond 2^53, a value and its printed text); overlay cases hold 0-3 named layers per side; 900 pairs in which a composite subtree of L occurs at two or three positions and is ONE node object there (R lacks a key above it, is empty, independent, or a near miss; sides swapped one time in three); 500 pairs whose L is diffed, edited in place 1-4 times (AddValue / Remove / Set / MustSet / Append / Clear through nested builders, Lookup, the root's path API) and diffed again against the content it must hold then and against a freshly built document; the sequence returned by the first call is re-read after twenty later calls; domdiff cases go through the pipeline template engine. A pair is non-trivial when Diff(L,R) is non-empty or both documents have more than one node; distinct = distinct canonical case JSON (hash).",
+		Rule: "pairs of root containers over path-safe keys (two key pools, one with keys such as a / a-b / aB / a_ whose paths interleave with a. and a[ in byte order): R is L after 0-4 random local edits (key added/removed, leaf changed, kind changed, list edited), or an independent document, or a copy, or a copy differing in exactly one scalar by a confusable pair (same number under another Go type, neighbouring integers beyond 2^53, a value and its printed text); overlay cases hold 0-3 named layers per side; 900 pairs in which a composite subtree of L occurs at two or three positions and is ONE node object there (R lacks a key above it, is empty, independent, or a near miss; sides swapped one time in three); 500 pairs whose L is diffed, edited in place 1-4 times (AddValue / Remove / Set / MustSet / Append / Clear through nested builders, Lookup, the root's path API) and diffed again against the content it must hold then and against a freshly built document; 700 pairs whose documents hold IMMUTABLE nodes: one composite position in three (lists and containers, either side or both) is attached as the sealed view (ListBuilder.Seal / ContainerBuilder.Seal) of its builder, one time in three the sealed roots are what Diff is given, one time in three L is edited in between through the kept builders; the sequence returned by the first call is re-read after twenty later calls; domdiff cases go through the pipeline template engine. A pair is non-trivial when Diff(L,R) is non-empty or both documents have more than one node; distinct = distinct canonical case JSON (hash).",
 		Assumptions: []string{"scalars are NaN-free and -0-free, so cmp.Equal on leaves coincides with equality of (Go type, fmt.Sprint) pairs",
 			"keys are non-empty over [A-Za-z0-9_-] (path-safe); Lean's String order (code points) equals Go's byte order on these ASCII paths",
 			"the statement's 'Delete immediately followed by Adds' is read as the quantifier text spells it out: the sequence is sorted by path and, among equal paths, the Delete precedes the Add; with a sibling key such as a-b or aB the block Delete a / Add a[0] is not contiguous after sorting (Delete a, Add a-b, Add a[0])"}})
@@ -142,6 +148,44 @@ func c07Run(c *Ctx) {
 		g.ListMax = 5
 		p.EditsL = dhGenEdits(r, g, p.L, 1+r.Intn(4))
 		c.Dist("pair:L-with-history")
+		c.Do("pair", p)
+	}
+	for i := 0; i < c.N(700); i++ {
+		// documents that hold immutable nodes: some lists / containers (one in three positions, either side) are attached
+		// as the sealed views of their builders; one case in three has a history of edits on top (made through the kept
+		// builders), one in three hands the sealed roots to Diff
+		c.Tick()
+		g := c07Gen(r)
+		g.PList += 0.15
+		l := g.Doc(r)
+		var rr W
+		switch r.Intn(4) {
+		case 0:
+			rr = deepCopyW(l)
+		default:
+			rr = deepCopyW(l)
+			for k, n := 0, 1+r.Intn(3); k < n; k++ {
+				rr = g.Mutate(r, rr)
+			}
+		}
+		if r.Intn(2) == 0 {
+			l, rr = rr, l
+		}
+		p := c07Pair{L: l, R: rr, SealRoots: r.Intn(3) == 0}
+		switch r.Intn(4) {
+		case 0:
+			p.SealL = dhGenSeals(r, l)
+		case 1:
+			p.SealR = dhGenSeals(r, rr)
+		default:
+			p.SealL, p.SealR = dhGenSeals(r, l), dhGenSeals(r, rr)
+		}
+		if r.Intn(3) == 0 {
+			gh := c07Gen(r)
+			gh.ListMax = 5
+			p.EditsL = dhGenEdits(r, gh, p.L, 1+r.Intn(3))
+		}
+		c.Dist("pair:with-sealed-nodes")
 		c.Do("pair", p)
 	}
 	names := []string{"base", "dev", "prod"}
@@ -531,10 +575,17 @@ func c07Eval(c *Ctx, kind string, raw []byte) {
 			case "dag-each":
 				l, r = heapBuildDag(p.L, map[string]dom.Node{}).(dom.ContainerBuilder), heapBuildDag(p.R, map[string]dom.Node{}).(dom.ContainerBuilder)
 			default:
-				d = dhNew(p.L, nil)
-				l, r = d.root, wireContainer(p.R)
+				d = dhNew(p.L, p.SealL)
+				l, r = d.root, dhNew(p.R, p.SealR).root
 			}
-			if !c07CheckPair(c, c07Pair{L: p.L, R: p.R}, l, r, "", true) || d == nil || len(p.EditsL) == 0 {
+			var lv, rv dom.Container = l, r
+			if p.SealRoots {
+				lv, rv = l.Seal(), r.Seal()
+			}
+			if len(p.SealL)+len(p.SealR) > 0 || p.SealRoots {
+				c.Dist("pair:sealed-views-attached")
+			}
+			if !c07CheckPair(c, c07Pair{L: p.L, R: p.R}, lv, rv, "", true) || d == nil || len(p.EditsL) == 0 {
 				return
 			}
 			executed := 0
@@ -560,7 +611,10 @@ func c07Eval(c *Ctx, kind string, raw []byte) {
 				return
 			}
 			const label = "(L edited in place since the last Diff)"
-			if !c07CheckPair(c, c07Pair{L: d.exp, R: p.R}, l, r, label, false) {
+			if p.SealRoots {
+				lv = l.Seal() // the view handed out after the edits
+			}
+			if !c07CheckPair(c, c07Pair{L: d.exp, R: p.R}, lv, rv, label, false) {
 				return
 			}
 			// the edited document against a freshly built document of the same content: no difference, either way
